@@ -86,7 +86,8 @@ func (v *V1) GetRecordSize(buf []byte, startFileOffset uint32) (payloadSize uint
 
 func (v *V1) ReadHeaderWithValidation(buf []byte, startFileOffset uint32) (payloadSize uint32, previousCrc uint32, payloadCrc uint32, err error) {
 	bufSize := uint32(len(buf))
-	if startFileOffset >= bufSize {
+	// The payload size itself must fit: a file can end 1 to 3 bytes after the last record
+	if uint64(startFileOffset)+uint64(v1PayloadSizeLen) > uint64(bufSize) {
 		return payloadSize, previousCrc, payloadCrc, errors.Wrapf(ErrOffsetOutOfBounds,
 			"expected payload size: %d. actual buf size: %d ", startFileOffset+v1PayloadSizeLen, bufSize)
 	}
